@@ -8,7 +8,7 @@ group() {
     C12) echo C12,C13 ;; C13) echo C13,C12 ;; C14) echo C14 ;;
     C15) echo C15,C16,C17 ;; C16) echo C16,C15 ;; C17) echo C17,C15 ;;
     C18) echo C18,C19 ;; C19) echo C19,C18,C20 ;; C20) echo C20,C19 ;; C21) echo C21,C19 ;;
-    C22) echo C22,C23 ;; C23) echo C23,C22 ;;
+    C22) echo C22,C01,C19 ;; C23) echo C23,C22 ;;
     C24) echo C24 ;;
   esac
 }
